@@ -9,5 +9,6 @@ CFG = dict(
     trusted_base=COMMON_TB + ["the block's perpetual macro-op is reconstructed from the positions' own field changes (W); the pool aggregates are predicted and compared"],
     assumptions=["the arithmetic that reduces a position's fields to zero before DestroyMTP is not modelled (residual-zero side condition; witness theorem shows what happens otherwise)"],
     explanation="Theorems over paired position/pool updates, open, destroy (partial), atomic macro-ops and histories; custody backing (partial). "
-                "Predicates evaluated on every observed block; the world has two perpetual pools sharing the trading asset.",
+                "Predicates evaluated on every observed block; the world has two perpetual pools sharing the trading asset."
+                " Id allocation: no stored position's id exceeds the counter and no id is stored twice over all histories of opens, closes and genesis export/import restarts (ids_never_reused; witness of the import-by-length rule); evaluated on every observed block.",
 )
